@@ -169,7 +169,8 @@ def render_func(prog, fname):
         elif t == "eval":
             g = prog["funcs"][it["f"]]
             nm = _ref_name(prog, cur, g["mod"], it["f"], it.get("form", "direct"))
-            lines.append(f"    {r} = dds.eval({nm})")
+            call = {"dds": "dds.eval", "bare": "eval", "alias": "dds_eval", "mod": "dds_pkg.eval"}[it.get("spell", "dds")]
+            lines.append(f"    {r} = {call}({nm})")
         elif t == "ext":
             # behaviour of non-accepted code is by design not tracked: its value never flows into the result
             lines.append(f"    {r} = extlib{it.get('m', 0) or ''}.ext_fn() and None")
@@ -221,6 +222,13 @@ def _imports_for(prog, m):
         lines = ["import dds", "from simutil import rec, ident, Box"]
     for k, em in enumerate(prog.get("extmods", ["extlib"])):
         lines.append(f"import {em} as extlib{k or ''}")
+    spells = {it.get("spell", "dds") for fn in funcs_in(prog, m) for it in prog["funcs"][fn]["body"] if it["t"] == "eval"}
+    if "bare" in spells:
+        lines.append("from dds import eval")
+    if "alias" in spells:
+        lines.append("from dds import eval as dds_eval")
+    if "mod" in spells:
+        lines.append("import dds as dds_pkg")
     froms, aliases, attrs, pkgattrs = set(), set(), set(), set()
     need_od = need_path = False
     for vn, v in prog["vars"].items():
@@ -372,6 +380,12 @@ def accepted_names(prog):
     names += [f"decoy{i}" for i in range(prog.get("decoys", 0))]
     # further packages accepted AFTER the program's own one, e.g. a name that is a plain string prefix of it
     names += list(prog.get("accept_after", []))
+    # packages nested INSIDE the program's accepted package, accepted as well (before or after it): no effect expected
+    nested = list(prog.get("accept_nested", []))
+    if prog.get("accept_nested_first"):
+        names = nested + names
+    else:
+        names += nested
     return names
 
 
